@@ -196,8 +196,14 @@ Definition acquire_service (b : bus) (cn : conn) (name : bytes) (flags : N) : re
   if starts_with_colon name then RErr EInvalidArgs else
   if bytes_eqb name DBUS_SERVICE_DBUS_str then RErr EInvalidArgs else
   (* SELinux, AppArmor, bus_client_policy_check_can_own: permissive configuration *)
-  if b_limit b <=? nlen (c_owned cn) then RErr ELimitsExceeded else
   let k := KW name in
+  (* bus_registry_lookup, then the limit: only a caller that is not yet in the queue of the
+     name (service == NULL || !bus_service_owner_in_queue) can be refused *)
+  let holds := match lookup (b_services b) k with
+               | Some q => match find_owner q c with Some _ => true | None => false end
+               | None => false
+               end in
+  if (b_limit b <=? nlen (c_owned cn)) && negb holds then RErr ELimitsExceeded else
   let dnq := has_flag flags DBUS_NAME_FLAG_DO_NOT_QUEUE in
   let repl := has_flag flags DBUS_NAME_FLAG_REPLACE_EXISTING in
   match lookup (b_services b) k with
